@@ -7,7 +7,15 @@
 (* start.  Every durable write is its own action so that TLC explores a    *)
 (* crash between any two of them; two submitters interleave.               *)
 (*                                                                         *)
-(* Deviation of the pinned tree kept as a switch:                          *)
+(* The fixed code deletes the record before it removes the batch from the  *)
+(* in-memory queue; without a refused write the two orders cannot be told  *)
+(* apart (one durable write either way), so the pop stays the first step   *)
+(* here and a refused delete puts the batch back (KeepOnFail).             *)
+(*                                                                         *)
+(* Deviations of the pinned tree kept as switches:                         *)
+(*   KeepOnFail = FALSE  a take hands the batch out although the delete of *)
+(*                     its record was refused: after the next (orderly)    *)
+(*                     restart the batch is handed out a second time       *)
 (*   KeyBySeq = FALSE  database key = content hash of the batch: identical *)
 (*                     batches collide (one record, deleted once), and the *)
 (*                     reload order is key order, not acceptance order     *)
@@ -15,7 +23,10 @@
 EXTENDS Integers, Sequences, FiniteSets, TLC
 
 CONSTANTS Contents,   \* possible batch contents (identical contents = identical batches)
-          Bound, MaxOps, MaxCrashes, KeyBySeq
+          Bound, MaxOps, MaxCrashes, KeyBySeq,
+          MaxFails,   \* refused database writes allowed
+          KeepOnFail  \* TRUE: a take whose record cannot be deleted hands nothing out and keeps the batch queued
+                      \* FALSE (pinned tree): it hands the batch out although the record stays behind
 
 VARIABLES accepted,  \* contents in the order submissions were acknowledged
           handed,    \* contents in the order they were handed out
@@ -24,16 +35,17 @@ VARIABLES accepted,  \* contents in the order submissions were acknowledged
           seq,       \* next record number
           pcS,       \* per submitter: idle | put(c)
           pcN,       \* next: idle | del(c)
-          up, ops, crashes
+          up, ops, crashes,
+          fails      \* refused database writes so far (the database returns an error, the process lives on)
 
-vars == <<accepted, handed, mem, db, seq, pcS, pcN, up, ops, crashes>>
+vars == <<accepted, handed, mem, db, seq, pcS, pcN, up, ops, crashes, fails>>
 Sub == {1, 2}
 
 \* order of content hashes in the database's key space (arbitrary but fixed)
 HashLess(a, b) == a < b
 
 Init == /\ accepted = <<>> /\ handed = <<>> /\ mem = <<>> /\ db = <<>> /\ seq = 0
-        /\ pcS = [s \in Sub |-> [st |-> "idle"]] /\ pcN = [st |-> "idle"] /\ up = TRUE /\ ops = 0 /\ crashes = 0
+        /\ pcS = [s \in Sub |-> [st |-> "idle"]] /\ pcN = [st |-> "idle"] /\ up = TRUE /\ ops = 0 /\ crashes = 0 /\ fails = 0
 
 Free == pcN.st = "idle" /\ \A s \in Sub : pcS[s].st = "idle"
 DbHas(c) == \E i \in 1 .. Len(db) : db[i].c = c
@@ -50,7 +62,7 @@ SubmitPut(s, c) ==
           THEN UNCHANGED <<db, seq, pcS>>                     \* rejected: queue full, no trace
           ELSE /\ db' = DbPut(c) /\ seq' = seq + 1
                /\ pcS' = [pcS EXCEPT ![s] = [st |-> "put", c |-> c, key |-> seq]]
-    /\ UNCHANGED <<accepted, handed, mem, pcN, up, crashes>>
+    /\ UNCHANGED <<accepted, handed, mem, pcN, up, crashes, fails>>
 
 \* submit, step 2: append in memory and acknowledge
 SubmitAck(s) ==
@@ -58,7 +70,7 @@ SubmitAck(s) ==
     /\ mem' = Append(mem, [c |-> pcS[s].c, key |-> pcS[s].key])
     /\ accepted' = Append(accepted, pcS[s].c)
     /\ pcS' = [pcS EXCEPT ![s] = [st |-> "idle"]]
-    /\ UNCHANGED <<handed, db, seq, pcN, up, ops, crashes>>
+    /\ UNCHANGED <<handed, db, seq, pcN, up, ops, crashes, fails>>
 
 \* next, step 1: pop in memory
 NextPop ==
@@ -66,7 +78,7 @@ NextPop ==
     /\ ops' = ops + 1
     /\ pcN' = [st |-> "del", c |-> Head(mem).c, key |-> Head(mem).key]
     /\ mem' = Tail(mem)
-    /\ UNCHANGED <<accepted, handed, db, seq, pcS, up, crashes>>
+    /\ UNCHANGED <<accepted, handed, db, seq, pcS, up, crashes, fails>>
 
 \* next, step 2: delete the record, hand the batch out
 NextDel ==
@@ -74,11 +86,26 @@ NextDel ==
     /\ db' = DbDel(pcN.c, pcN.key)
     /\ handed' = Append(handed, pcN.c)
     /\ pcN' = [st |-> "idle"]
-    /\ UNCHANGED <<accepted, mem, seq, pcS, up, ops, crashes>>
+    /\ UNCHANGED <<accepted, mem, seq, pcS, up, ops, crashes, fails>>
+
+\* the database refuses the write-ahead record: the submission fails, nothing was appended
+SubmitPutRefused(s, c) ==
+    /\ up /\ Free /\ ops < MaxOps /\ fails < MaxFails /\ Len(mem) < Bound
+    /\ ops' = ops + 1 /\ fails' = fails + 1
+    /\ UNCHANGED <<accepted, handed, mem, db, seq, pcS, pcN, up, crashes>>
+
+\* the database refuses the delete of a take
+NextDelRefused ==
+    /\ up /\ pcN.st = "del" /\ fails < MaxFails
+    /\ fails' = fails + 1 /\ pcN' = [st |-> "idle"]
+    /\ IF KeepOnFail
+          THEN mem' = <<[c |-> pcN.c, key |-> pcN.key]>> \o mem /\ handed' = handed     \* still queued, error returned
+          ELSE mem' = mem /\ handed' = Append(handed, pcN.c)                           \* handed out, record left behind
+    /\ UNCHANGED <<accepted, db, seq, pcS, up, ops, crashes>>
 
 Crash ==
     /\ up /\ crashes < MaxCrashes
-    /\ up' = FALSE /\ crashes' = crashes + 1
+    /\ up' = FALSE /\ crashes' = crashes + 1 /\ fails' = fails
     /\ mem' = <<>> /\ pcS' = [s \in Sub |-> [st |-> "idle"]] /\ pcN' = [st |-> "idle"]
     \* a submission whose record was written but not acknowledged may or may not count as accepted;
     \* the model takes the view of the caller: not acknowledged = not accepted (it may still come out)
@@ -88,7 +115,7 @@ Crash ==
 Stop ==
     /\ up /\ Free
     /\ up' = FALSE /\ mem' = <<>>
-    /\ UNCHANGED <<accepted, handed, db, seq, pcS, pcN, ops, crashes>>
+    /\ UNCHANGED <<accepted, handed, db, seq, pcS, pcN, ops, crashes, fails>>
 
 RECURSIVE SortByHash(_)
 SortByHash(s) == IF Len(s) <= 1 THEN s
@@ -103,11 +130,12 @@ Load ==
     /\ ~up /\ up' = TRUE
     /\ mem' = IF KeyBySeq THEN db ELSE SortByHash(db)      \* iteration in database key order
     /\ seq' = MaxKey(db) + 1
-    /\ UNCHANGED <<accepted, handed, db, pcS, pcN, ops, crashes>>
+    /\ UNCHANGED <<accepted, handed, db, pcS, pcN, ops, crashes, fails>>
 
 Next == \/ \E s \in Sub, c \in Contents : SubmitPut(s, c)
         \/ \E s \in Sub : SubmitAck(s)
-        \/ NextPop \/ NextDel \/ Crash \/ Stop \/ Load
+        \/ \E s \in Sub, c \in Contents : SubmitPutRefused(s, c)
+        \/ NextPop \/ NextDel \/ NextDelRefused \/ Crash \/ Stop \/ Load
 Spec == Init /\ [][Next]_vars
 
 \* ---- C10 ---------------------------------------------------------------------------
